@@ -22,6 +22,7 @@ import (
 	v3 "github.com/deadsy/sdfx/vec/v3"
 	"github.com/deadsy/sdfx/vec/v3i"
 	. "verifharness/kit"
+	mk "verifharness/marchkit"
 	sk "verifharness/samplekit"
 	"verifharness/rendergen"
 	"verifharness/tabgen"
@@ -153,6 +154,20 @@ func (st *state) do3(sp *Spec, stratum string) {
 			return
 		}
 		levels = l
+		// the box the lattice starts from is the bounding box enlarged by 0.5 % on every side (from centre and
+		// size, not with the code under test), and the top cube covers it and the bounding box
+		if msg := mk.CheckScaled3(bb); msg != "" {
+			fail(msg)
+		}
+		{
+			lo, hi := mk.Scaled3(bb, 1.01)
+			side := math.Ldexp(g.Res, levels-1)
+			tol := 1e-9*bb.Size().MaxComponent() + 1e-14*math.Max(bb.Min.Abs().MaxComponent(), bb.Max.Abs().MaxComponent())
+			o := g.Origin
+			if o.X > lo.X+tol || o.Y > lo.Y+tol || o.Z > lo.Z+tol || o.X+side < hi.X-tol || o.Y+side < hi.Y-tol || o.Z+side < hi.Z-tol {
+				fail(fmt.Sprintf("top cube [%v, +%g] (levels %d) does not cover the bounding box [%v,%v] enlarged by 0.5 %% on every side [%v,%v]: finest cells of the lattice over the bounding box are never visited", o, side, levels, bb.Min, bb.Max, lo, hi))
+			}
+		}
 		// the top cube must cover the scaled box (exact)
 		long := new(big.Rat).SetFloat64(bb.ScaleAboutCenter(1.01).Size().MaxComponent())
 		side := new(big.Rat).SetFloat64(g.Res)
@@ -292,6 +307,18 @@ func (st *state) do2(sp *Spec, stratum string) {
 			return
 		}
 		levels = l
+		if msg := mk.CheckScaled2(bb); msg != "" {
+			fail(msg)
+		}
+		{
+			lo, hi := mk.Scaled2(bb, 1.01)
+			side := math.Ldexp(g.Res, levels-1)
+			tol := 1e-9*bb.Size().MaxComponent() + 1e-14*math.Max(math.Max(math.Abs(bb.Min.X), math.Abs(bb.Min.Y)), math.Max(math.Abs(bb.Max.X), math.Abs(bb.Max.Y)))
+			o := g.Origin
+			if o.X > lo.X+tol || o.Y > lo.Y+tol || o.X+side < hi.X-tol || o.Y+side < hi.Y-tol {
+				fail(fmt.Sprintf("top square [%v, +%g] (levels %d) does not cover the bounding box [%v,%v] enlarged by 0.5 %% on every side [%v,%v]: finest cells of the lattice over the bounding box are never visited", o, side, levels, bb.Min, bb.Max, lo, hi))
+			}
+		}
 		long := new(big.Rat).SetFloat64(bb.ScaleAboutCenter(1.01).Size().MaxComponent())
 		side := new(big.Rat).SetFloat64(g.Res)
 		side.Mul(side, new(big.Rat).SetInt(new(big.Int).Lsh(big.NewInt(1), uint(levels-1))))
@@ -586,6 +613,9 @@ func check(c *Ctx, r *Report) error {
 		}
 	}
 	if c.Replay == "" {
+		// shapes built by the library's own constructors, rendered through render.ToTriangles (first: a shape
+		// away from the origin whose top cube misses part of its bounding box is the most telling failing input)
+		libraryShapes(st, rng, c)
 		st.readback()
 		st.genFine(rng, c)
 		st.genReuse(rng, c)
@@ -659,8 +689,37 @@ func check(c *Ctx, r *Report) error {
 				st.do2(sp, fmt.Sprintf("api2/cells%d/%s", mc, sp.Field.Kind))
 			}
 		}
-		// shapes built by the library's own constructors, rendered through render.ToTriangles
-		libraryShapes(st, rng, c)
+		// the public renderers again, the bounding box 2x .. 1000x its size away from the origin along one, two,
+		// three axes (Min > 0 or Max < 0): the lattice origin, the level count and the cube must follow the box
+		{
+			sign := func() float64 { return pick(rng, 1, 1, 1, -1) }
+			for rep := 0; rep < TierN(c.Tier, 1, 4, 2); rep++ {
+				for oi, off := range mk.Offsets3(sign) {
+					mc := []int{1, 2, 3, 4, 5, 7, 8, 11, 16}[(oi+rep+rng.Intn(3))%9]
+					sz := []float64{pick(rng, 1, 2, 3, 0.75), pick(rng, 1, 2, 1.5), pick(rng, 1, 2, 2.5)}
+					m := math.Max(sz[0], math.Max(sz[1], sz[2]))
+					ctr := []float64{rng.Dyadic(2, 2) + off.V[0]*m, rng.Dyadic(2, 2) + off.V[1]*m, rng.Dyadic(2, 2) + off.V[2]*m}
+					sp := &Spec{Dim: 3, Path: "api", Cells: mc,
+						BBMin: []float64{ctr[0] - sz[0]/2, ctr[1] - sz[1]/2, ctr[2] - sz[2]/2},
+						BBMax: []float64{ctr[0] + sz[0]/2, ctr[1] + sz[1]/2, ctr[2] + sz[2]/2}}
+					top := int(math.Ceil(math.Log2(2.02 * float64(mc))))
+					sp.Field = genField3(rng, 1<<uint(top), false)
+					st.do3(sp, fmt.Sprintf("api3-translated/%s/%s", off.Name, sp.Field.Kind))
+				}
+				for oi, off := range mk.Offsets2(sign) {
+					mc := []int{1, 2, 3, 5, 8, 13, 21, 40, 64, 100}[(oi+rep+rng.Intn(3))%10]
+					sz := []float64{pick(rng, 1, 2, 3, 0.75), pick(rng, 1, 2, 1.5)}
+					m := math.Max(sz[0], sz[1])
+					ctr := []float64{rng.Dyadic(2, 2) + off.V[0]*m, rng.Dyadic(2, 2) + off.V[1]*m}
+					sp := &Spec{Dim: 2, Path: "api", Cells: mc,
+						BBMin: []float64{ctr[0] - sz[0]/2, ctr[1] - sz[1]/2},
+						BBMax: []float64{ctr[0] + sz[0]/2, ctr[1] + sz[1]/2}}
+					top := int(math.Ceil(math.Log2(2.02 * float64(mc))))
+					sp.Field = genField2(rng, 1<<uint(top), false)
+					st.do2(sp, fmt.Sprintf("api2-translated/%s/%s", off.Name, sp.Field.Kind))
+				}
+			}
+		}
 	}
 
 	for _, cs := range []*Cases{st.o3, st.o2, st.l3, st.l2} {
@@ -693,8 +752,7 @@ func check(c *Ctx, r *Report) error {
 
 // library constructors (exact primitives and their min/max combinations)
 func libraryShapes(st *state, rng *Rng, c *Ctx) {
-	r := st.r
-	mk := func() (sdf.SDF3, string) {
+	mkShape := func() (sdf.SDF3, string) {
 		switch rng.Intn(4) {
 		case 0:
 			s, _ := sdf.Sphere3D(0.5 + rng.Float())
@@ -712,10 +770,30 @@ func libraryShapes(st *state, rng *Rng, c *Ctx) {
 		b = sdf.Transform3D(b, sdf.Translate3d(v3.Vec{X: 0.75 + 0.5*rng.Float(), Y: 0.25}))
 		return sdf.Union3D(a, b), "Union3D(Sphere3D,Sphere3D)"
 	}
+	// the same shapes 2x .. 1000x their size away from the origin along one, two, three axes
+	sign := func() float64 { return pick(rng, 1, 1, 1, -1) }
+	for rep := 0; rep < TierN(c.Tier, 1, 3, 2); rep++ {
+		for _, off := range mk.Offsets3(sign) {
+			s, name := mkShape()
+			size := s.BoundingBox().Size().MaxComponent()
+			d := v3.Vec{X: off.V[0] * size, Y: off.V[1] * size, Z: off.V[2] * size}
+			mc := rng.Range(3, TierN(c.Tier, 16, 32, 24))
+			st.lib3(mk.Moved3{S: s, D: d}, name, mc, fmt.Sprintf("lib3:%s moved by %v/cells%d", name, d, mc), "lib3-translated/"+off.Name)
+		}
+	}
 	for rep := 0; rep < TierN(c.Tier, 6, 30, 12); rep++ {
-		s, name := mk()
+		s, name := mkShape()
 		mc := rng.Range(3, TierN(c.Tier, 24, 48, 32))
-		key := fmt.Sprintf("lib3:%s/cells%d/%d", name, mc, rep)
+		st.lib3(s, name, mc, fmt.Sprintf("lib3:%s/cells%d/%d", name, mc, rep), "lib3/"+name)
+	}
+	_ = strings.Join
+}
+
+// one library shape through render.ToTriangles and the public octree renderer against the exhaustive evaluation
+// of the finest cells of its lattice; the top cube must contain the bounding box of the shape
+func (st *state) lib3(s sdf.SDF3, name string, mc int, key, stratum string) {
+	r := st.r
+	for once := true; once; once = false {
 		rec := &sk.Recorder3{S: s}
 		tris := render.ToTriangles(rec, render.NewMarchingCubesOctree(mc))
 		bb := s.BoundingBox()
@@ -731,6 +809,37 @@ func libraryShapes(st *state, rng *Rng, c *Ctx) {
 			continue
 		}
 		n := 1 << uint(levels-1)
+		if msg := mk.CheckScaled3(bb); msg != "" {
+			r.Violate(key, "C07 "+msg, key)
+		}
+		// the finest cells over the whole bounding box belong to "every finest-level cell of the same lattice":
+		// the top cube has to contain the bounding box; what the exhaustive evaluation of the lattice continued
+		// over the bounding box emits outside the cube is lost
+		side := float64(n) * g.Res
+		if o := g.Origin; o.X > bb.Min.X || o.Y > bb.Min.Y || o.Z > bb.Min.Z || o.X+side < bb.Max.X || o.Y+side < bb.Max.Y || o.Z+side < bb.Max.Z {
+			cell := 2 * g.Res
+			m, m2 := 0.0, 0.0
+			for _, x := range []float64{o.X - bb.Min.X, o.Y - bb.Min.Y, o.Z - bb.Min.Z} {
+				m = math.Max(m, math.Ceil(x/cell))
+			}
+			for _, x := range []float64{bb.Max.X - o.X - side, bb.Max.Y - o.Y - side, bb.Max.Z - o.Z - side} {
+				m2 = math.Max(m2, math.Ceil(x/cell))
+			}
+			what := fmt.Sprintf("C07 render.ToTriangles(%s, octree %d): the top cube [%v, +%g] does not contain the bounding box [%v,%v] of the shape", name, mc, o, side, bb.Min, bb.Max)
+			if n2 := n + 2*int(m+m2); n2 <= 200 {
+				g2 := sk.Grid3{Origin: v3.Vec{X: o.X - m*cell, Y: o.Y - m*cell, Z: o.Z - m*cell}, Res: g.Res}
+				outside := 0
+				all := sk.Uniform3(sk.Sample3(s, g2, n2))
+				for _, t := range all {
+					c := t[0].Add(t[1]).Add(t[2]).MulScalar(1.0 / 3)
+					if c.X < o.X || c.Y < o.Y || c.Z < o.Z || c.X > o.X+side || c.Y > o.Y+side || c.Z > o.Z+side {
+						outside++
+					}
+				}
+				what += fmt.Sprintf(": %d of the %d triangles the exhaustive evaluation of the finest cells of this lattice over the bounding box emits lie outside the cube and are lost (%d emitted)", outside, len(all), len(tris))
+			}
+			r.Violate(key, what, key)
+		}
 		tab := sk.Sample3(s, g, n)
 		ref := sk.Uniform3(tab)
 		var got []sdf.Triangle3
@@ -738,7 +847,7 @@ func libraryShapes(st *state, rng *Rng, c *Ctx) {
 			got = append(got, *t)
 		}
 		lost, extra := sk.DiffTris(ref, got)
-		r.Case("lib3/"+name, key, len(ref) > 0)
+		r.Case(stratum, key, len(ref) > 0)
 		if len(lost) > 0 || len(extra) > 0 {
 			r.Violate(key, fmt.Sprintf("C07 render.ToTriangles(%s, octree %d): %d triangles lost, %d extra against the exhaustive evaluation", name, mc, len(lost), len(extra)), key)
 		}
@@ -759,5 +868,4 @@ func libraryShapes(st *state, rng *Rng, c *Ctx) {
 			r.Violate(key, fmt.Sprintf("C07 metamorphic %s: %d triangles only with f, %d only with f/4096", name, len(a), len(b)), key)
 		}
 	}
-	_ = strings.Join
 }
